@@ -192,6 +192,14 @@ def gen_case(ch: Chooser, excl=()):
             sem = refsem.Sem({"files": b.files})
             b.use_only(p, [x for x in modnames[:idx]], ptaken, sem)
             b.local_decls(p, ptaken)
+            if idx and "use_in_block" not in b.excl and ch.bool(1, 4):
+                # a BLOCK construct with a USE statement of its own: what it imports is known inside the block only
+                bm = ch.choice(modnames[:idx])
+                tn = sorted(n for n in sem.exports(bm)["type"] if n in TYPES)
+                if tn:
+                    n_ = ch.choice(tn)
+                    p["exec"] += ["block", f"use {bm}, only: {n_}", f"type({n_}) :: blk_{b.fresh('v')}", "end block"]
+                    b.feats.add("use-inside-block")
             m["procs"].append(p)
             b.scopes.append((p, [m["name"], p["name"]], True, False))
             for q in list(p["procs"]):
